@@ -33,7 +33,7 @@ STUBBED = ["none inside the calls; sequenceParameters.print / backendtools chatt
 ASSUMPTIONS = ["positions are Python ints (single, list or tuple); other types are outside the statement and not generated",
                "derived values are compared with the real code on a fresh object built from the substituted string (tolerance 1e-12)",
                "calls are atomic; interleaving = which live object's call runs next"]
-PROBES = ["object_created_mid_history", "related_objects", "pos_zero", "pos_negative", "pos_N_plus_1", "pos_huge", "dup_in_call", "dup_across_calls", "non_sty_in_range",
+PROBES = ["shuffled_copy_is_live_object", "object_created_mid_history", "related_objects", "pos_zero", "pos_negative", "pos_N_plus_1", "pos_huge", "dup_in_call", "dup_across_calls", "non_sty_in_range",
           "set_after_clear", "dist_k_ge_3", "kappa_after_with_sites", "tuple_arg", "int_arg", "hostile_with_sites_held",
           "second_object_checked"]
 STY = "STY"
@@ -68,6 +68,11 @@ def gen_plan(streams, tier):
         s = objs[o]
         N = len(s)
         x = rnd.random()
+        if x < 0.09 and x >= 0.04 and len(objs) < 6:
+            ops.append({"k": "copy", "o": o, "via": rnd.choice(("shuffle", "shuffle_frozen_all", "permutant"))})
+            objs.append(objs[o])          # same residues (a rearrangement); S/T/Y positions are resolved at run time
+            nobj += 1
+            continue
         if x < 0.04 and len(objs) < 5:
             base = objs[o]
             kind = rnd.choice(("same", "perm", "double"))
@@ -102,7 +107,7 @@ def gen_plan(streams, tier):
             ops.append({"k": "clear", "o": o})
         else:
             ops.append({"k": "obs", "o": o, "w": rnd.choice(("sites", "pseq", "pseq", "kappa", "kappa", "dist", "all", "seq"))})
-    nnew = sum(1 for op in ops if op["k"] == "new")
+    nnew = sum(1 for op in ops if op["k"] in ("new", "copy"))
     return {"property": ID, "run_seed": streams.run_seed, "objects": objs[:len(objs) - nnew], "ops": ops}
 
 
@@ -129,6 +134,11 @@ def corpus():
         {"k": "set", "o": 0, "t": "list", "v": [2, 6]}, {"k": "obs", "o": 0, "w": "dist"},
         {"k": "set", "o": 1, "t": "list", "v": [2, 6, 12, 16]}, {"k": "obs", "o": 1, "w": "dist"}, {"k": "obs", "o": 1, "w": "kappa"},
         {"k": "set", "o": 2, "t": "tuple", "v": [2, 16, 30]}, {"k": "obs", "o": 2, "w": "dist"}, {"k": "obs", "o": 0, "w": "dist"}, {"k": "obs", "o": 2, "w": "kappa"}]}))
+    out.append(("copies_have_their_own_sites", {"property": ID, "run_seed": 164, "objects": ["GSKETGSKET"], "ops": [
+        {"k": "copy", "o": 0, "via": "shuffle_frozen_all"}, {"k": "set", "o": 0, "t": "list", "v": [2, 5]}, {"k": "obs", "o": 1, "w": "sites"},
+        {"k": "obs", "o": 1, "w": "pseq"}, {"k": "copy", "o": 0, "via": "shuffle_frozen_all"}, {"k": "obs", "o": 2, "w": "sites"},
+        {"k": "set", "o": 2, "t": "int", "v": [7]}, {"k": "obs", "o": 0, "w": "sites"}, {"k": "obs", "o": 0, "w": "kappa"},
+        {"k": "copy", "o": 0, "via": "permutant"}, {"k": "obs", "o": 3, "w": "sites"}, {"k": "clear", "o": 0}, {"k": "obs", "o": 2, "w": "dist"}]}))
     out.append(("order_is_first_set_order", {"property": ID, "run_seed": 162, "objects": ["SKTEYKSET"], "ops": [
         {"k": "set", "o": 0, "t": "list", "v": [7, 1, 5]}, {"k": "set", "o": 0, "t": "list", "v": [3, 7]},
         {"k": "obs", "o": 0, "w": "dist"}, {"k": "obs", "o": 0, "w": "kappa"}]}))
@@ -225,7 +235,33 @@ def execute(plan, ctx):
                                             i, seqs[i], model[i], on, c, row[c], sub(i, on), want[c]))
         ctx.count("observations")
 
+    import localcider.backend.sequence as seqmod
+    from ..clock import SimClock
+    from ..rng import RngModule, TapeRandom, UniformDriver
+    from localcider.sequencePermutants import SequencePermutants
+    clock = SimClock(ctx, ctx.streams.stream("clock"), "normal")
+    drv = UniformDriver(ctx.streams.stream("tape"))
+    seqmod.time = clock
+    seqmod.rng = RngModule(lambda: TapeRandom("move", ctx, drv, 5000))
     for n, op in enumerate(plan["ops"]):
+        if op["k"] == "copy":
+            i = op["o"] % len(objs)
+            if op["via"] == "permutant":
+                child = SequencePermutants(seqs[i]).get_permutant()
+            elif op["via"] == "shuffle_frozen_all":
+                child = objs[i].get_shuffled_sequence(set(range(len(seqs[i]))))
+            else:
+                child = objs[i].get_shuffled_sequence(set())
+            cs = child.get_sequence()
+            seqs.append(cs)
+            objs.append(child)
+            model.append([])             # a copy starts with no requested sites of its own
+            cleared.append(False)
+            ctx.probe("shuffled_copy_is_live_object")
+            ctx.log.emit("copy", o=i, via=op["via"], child=cs)
+            for j in range(len(objs)):
+                check_basic(j, "after copy of object %d" % i)
+            continue
         if op["k"] == "new":
             seqs.append(op["seq"])
             objs.append(SequenceParameters(op["seq"]))
